@@ -25,7 +25,7 @@ def names(sc) -> dict:
     d = sc["dname"]
     dn = {"pubdecl": "pubdecl" + s, "_privdecl": "_privdecl" + s, "__dunder__": "__dunder" + s + "__"}[d]
     return {"decl": dn, "stem": sc["stem"] + s, "alias": (sc["reexp"]["alias"] + s) if sc["reexp"]["alias"] else "",
-            "meth": "meth" + s, "attr": "attr" + s, "pmeth": "_pmeth" + s, "iattr": "iattr" + s, "inner": "Inner" + s,
+            "meth": "meth" + s, "attr": "attr" + s, "pmeth": "_pmeth" + s, "iattr": "iattr" + s, "attr2": "attrb" + s, "iattr2": "iattrb" + s, "inner": "Inner" + s,
             "imeth": "imeth" + s, "pinner": "_PInner" + s, "AA": "AA" + s, "BB": "BB" + s}
 
 
@@ -34,7 +34,8 @@ def decl_src(sc, n) -> str:
     if k == "function":
         return f"def {d}(a: int) -> int:\n    ...\n"
     if k == "class":
-        return (f"class {d}:\n    {n['attr']}: int = 1\n\n    def __init__(self, a: int):\n        self.{n['iattr']}: int = a\n\n"
+        return (f"class {d}:\n    {n['attr']}: int = 1\n    {n['attr']}, {n['attr2']} = 2, 3\n\n    def __init__(self, a: int):\n        self.{n['iattr']}: int = a\n"
+                f"        self.{n['iattr']}, self.{n['iattr2']} = a, a\n\n"
                 f"    def {n['meth']}(self, a: int) -> int:\n        ...\n\n    def {n['pmeth']}(self) -> int:\n        ...\n")
     if k == "classinner":
         return (f"class {d}:\n    def {n['meth']}(self) -> int:\n        ...\n\n    class {n['inner']}:\n        def {n['imeth']}(self) -> int:\n            ...\n\n"
@@ -102,10 +103,10 @@ def observe(sc, stubs: Stubs, idx: dict, rootname: str) -> dict:
     n = names(sc)
     sid = f"s{sc['id']:04d}"
     mark = sfx(sc["id"])
-    roles = {"function": ["decl"], "class": ["decl", "meth", "attr", "pmeth", "iattr"],
+    roles = {"function": ["decl"], "class": ["decl", "meth", "attr", "pmeth", "iattr", "attr2", "iattr2"],
              "classinner": ["decl", "meth", "inner", "imeth", "pinner"], "enum": ["decl", "AA", "BB"]}[sc["kind"]]
     top_names = {n["decl"]} | ({n["alias"]} if n["alias"] else set())
-    owner = {"meth": "decl", "attr": "decl", "pmeth": "decl", "iattr": "decl", "inner": "decl", "pinner": "decl", "imeth": "inner", "AA": "decl", "BB": "decl"}
+    owner = {"meth": "decl", "attr": "decl", "pmeth": "decl", "iattr": "decl", "attr2": "decl", "iattr2": "decl", "inner": "decl", "pinner": "decl", "imeth": "inner", "AA": "decl", "BB": "decl"}
     occs = {r: [] for r in roles}
     for rel, f in stubs.files.items():
         home = None
@@ -135,6 +136,7 @@ def observe(sc, stubs: Stubs, idx: dict, rootname: str) -> dict:
     jp = {"decl": flag({"function": "functions", "enum": "enums"}.get(sc["kind"], "classes"), did),
           "meth": flag("functions", f"{did}/{n['meth']}"), "pmeth": flag("functions", f"{did}/{n['pmeth']}"),
           "attr": flag("attributes", f"{did}/{n['attr']}"), "iattr": flag("attributes", f"{did}/{n['iattr']}"),
+          "attr2": flag("attributes", f"{did}/{n['attr2']}"), "iattr2": flag("attributes", f"{did}/{n['iattr2']}"),
           "inner": flag("classes", f"{did}/{n['inner']}"), "pinner": flag("classes", f"{did}/{n['pinner']}"),
           "imeth": flag("functions", f"{did}/{n['inner']}/{n['imeth']}"), "AA": "absent", "BB": "absent"}
     # decl names are reported without the scenario suffix so that the spec can compare them with dname / alias
@@ -147,3 +149,49 @@ def observe(sc, stubs: Stubs, idx: dict, rootname: str) -> dict:
 def run_packs(packs, opts: Opts | None = None, **kw):
     jobs = [{"src": d, "opts": opts or Opts(), "timeout": 600, **kw} for d, _ in packs]
     return run_many(jobs, workers=NCPU)
+
+
+# ------------------------------------------------------------------------------------------------ universe U2 (spec/Package2.tla)
+AT_PATH = {0: [], 1: ["sub"], 2: ["sub", "deep"], 3: ["other"]}
+
+
+def u2_files(sc, root: str) -> dict:
+    s = sfx(sc["id"])
+    sid = f"s{sc['id']:04d}"
+
+    def decl(t):
+        n = ("declone" if t == 1 else "decltwo") + s
+        if sc["kind"] == "function":
+            return f"def {n}(from_d{t}: int) -> int:\n    ...\n"
+        return f"class {n}:\n    def m_d{t}(self) -> int:\n        ...\n"
+    files = {f"{sid}/__init__.py": "", f"{sid}/sub/__init__.py": "", f"{sid}/sub/deep/__init__.py": "", f"{sid}/other/__init__.py": "",
+             f"{sid}/other/fill.py": "def fill" + s + "() -> int:\n    ...\n",
+             f"{sid}/sub/deep/moda.py": decl(1), f"{sid}/sub/modb.py": decl(2)}
+    for e in sc["exports"]:
+        mod = ".".join([root, sid, "sub", "deep", "moda"] if e["tgt"] == 1 else [root, sid, "sub", "modb"])
+        n = ("declone" if e["tgt"] == 1 else "decltwo") + s
+        line = f"from {mod} import {n}" + (f" as {e['alias']}{s}" if e["alias"] else "") + "\n"
+        files["/".join([sid, *AT_PATH[e["at"]], "__init__.py"])] += line
+    return files
+
+
+def u2_observe(sc, stubs: Stubs, rootname: str) -> dict:
+    mark = sfx(sc["id"])
+    sid = f"s{sc['id']:04d}"
+    occs = {1: [], 2: []}
+    for rel, f in stubs.files.items():
+        for d in f.members:
+            if mark not in d.pyname:
+                continue
+            tgt = 0
+            if d.kind == "fun":
+                for p in d.params or []:
+                    if p["pyname"] in ("from_d1", "from_d2"):
+                        tgt = int(p["pyname"][-1])
+            elif d.kind == "class":
+                for m in d.members:
+                    if m.pyname in ("m_d1", "m_d2"):
+                        tgt = int(m.pyname[-1])
+            if tgt:
+                occs[tgt].append({"home": [seg.replace(mark, "") for seg in file_home(f, rootname, sid)], "name": d.pyname.replace(mark, "")})
+    return {"decls": [{"tgt": t, "occs": occs[t]} for t in (1, 2)]}
